@@ -241,6 +241,9 @@ where
     }
 }
 
+#[cfg(all(test, feature = "verif-hooks"))]
+mod verif_replays;
+
 #[cfg(test)]
 mod tests {
     use std::future::pending;
